@@ -473,6 +473,7 @@ def find_named_sum(ctx, spec_sum, budget_ms=3000):
     for (v, s) in named_sums(ctx):
         sub = Ctx(ctx.world, [])
         sub.pc = list(ctx.pc)
+        sub.soft = set(ctx.soft)
         sub.axioms = list(ctx.axioms)
         sub.counter = ctx.counter
         sub.named_mark = ctx.named_mark
